@@ -348,12 +348,34 @@ Proof.
   apply (verify_slow_iff H bt n d d mteq Hok Hsp Hwf). reflexivity.
 Qed.
 
-Lemma model_sat_oracle_file ht fast trust mteq o n :
-  repo_ok H bt -> sp_free H bt (n_content n) ->
-  check_C21 (CFile bt ht fast trust mteq o n (verify_file H size_of fast trust mteq o n)
-                    (needs_restore (verify_file H size_of fast trust mteq o n))) = true.
+Lemma x_is_err_verify hl fast trust mteq o n :
+  x_is_err (verify_file_x H size_of hl fast trust mteq o n) = is_err (verify_file H size_of fast trust mteq o n).
 Proof.
-  intros Hok Hsp. unfold check_C21, oracle_code.
+  unfold verify_file_x. destruct (verify_file H size_of fast trust mteq o n) as [|bm szm]; cbn [is_err negb andb x_is_err]; [reflexivity|].
+  destruct (negb fast && needs_restore (VState bm szm) && hl); reflexivity.
+Qed.
+
+(* the hard-link rule never changes whether the file is rewritten *)
+Lemma x_needs_restore_verify hl fast trust mteq o n :
+  x_needs_restore (verify_file_x H size_of hl fast trust mteq o n)
+  = needs_restore (verify_file H size_of fast trust mteq o n).
+Proof.
+  unfold verify_file_x. destruct (verify_file H size_of fast trust mteq o n) as [|bm szm]; cbn [is_err negb andb x_needs_restore]; [reflexivity|].
+  destruct (needs_restore (VState bm szm)) eqn:E; [|rewrite andb_false_r; cbn [andb x_needs_restore]; exact E].
+  destruct (negb fast), hl; cbn [andb x_needs_restore]; congruence.
+Qed.
+
+(* in fail-fast mode (VerifyFiles) the hard-link rule is not applied at all *)
+Lemma verify_file_x_fast hl trust mteq o n :
+  verify_file_x H size_of hl true trust mteq o n = XRes (verify_file H size_of true trust mteq o n).
+Proof. unfold verify_file_x. cbn [negb]. rewrite andb_false_r. reflexivity. Qed.
+
+Lemma model_sat_oracle_file ht hl fast trust mteq o n :
+  repo_ok H bt -> sp_free H bt (n_content n) ->
+  check_C21 (CFile bt ht hl fast trust mteq o n (verify_file_x H size_of hl fast trust mteq o n)
+                    (x_needs_restore (verify_file_x H size_of hl fast trust mteq o n))) = true.
+Proof.
+  intros Hok Hsp. unfold check_C21, oracle_code. rewrite x_is_err_verify, x_needs_restore_verify.
   destruct (wf_nodeb bt n) eqn:Ew; cbn [andb]; [|reflexivity].
   destruct trust; cbn [negb]; [reflexivity|].
   apply wf_nodeb_spec in Ew as [d Hwf]. pose proof Hwf as (Hd & _).
@@ -426,21 +448,21 @@ Qed.
 End Oracle.
 
 (* what a passing oracle says about the implementation's observation (no hash involved) *)
-Lemma oracle_file_fast_sound bt ht mteq o n obs nr d :
-  check_C21 (CFile bt ht true false mteq o n obs nr) = true -> wf_node bt n d ->
-  (obs <> VErr <-> o = FReg d).
+Lemma oracle_file_fast_sound bt ht hl mteq o n obs nr d :
+  check_C21 (CFile bt ht hl true false mteq o n obs nr) = true -> wf_node bt n d ->
+  (x_is_err obs = false <-> o = FReg d).
 Proof.
   intros Hc Hwf. pose proof Hwf as (Hd & _).
   unfold check_C21, oracle_code in Hc.
   assert (Ew : wf_nodeb bt n = true) by (apply wf_nodeb_spec; exists d; exact Hwf).
   rewrite Ew in Hc. cbn [andb negb] in Hc.
-  destruct (Bool.eqb (negb (is_err obs)) (intact bt o n)) eqn:E; [|discriminate].
+  destruct (Bool.eqb (negb (x_is_err obs)) (intact bt o n)) eqn:E; [|discriminate].
   apply eqb_prop in E. rewrite <- (intact_iff bt o n d Hd), <- E.
-  destruct obs; cbn; split; congruence.
+  destruct (x_is_err obs); cbn; split; congruence.
 Qed.
 
-Lemma oracle_file_slow_sound bt ht mteq o n obs nr d :
-  check_C21 (CFile bt ht false false mteq o n obs nr) = true -> wf_node bt n d ->
+Lemma oracle_file_slow_sound bt ht hl mteq o n obs nr d :
+  check_C21 (CFile bt ht hl false false mteq o n obs nr) = true -> wf_node bt n d ->
   (nr = false <-> o = FReg d).
 Proof.
   intros Hc Hwf. pose proof Hwf as (Hd & _).
